@@ -66,7 +66,7 @@ def run(ck):
         ck.leanchecker(["NfcVerif.Props.C01"])
     model = Model("drv_t12")
 
-    nlay = 700 if ck.thorough else 70
+    nlay = 1500 if ck.thorough else 250
     runs = []
     for i in range(nlay):
         kind = ("t2", "t2", "t1d", "t1s")[i % 4]
@@ -130,3 +130,13 @@ def run(ck):
                     dict(r.replay(), model=rep, impl=r.line))
     ck.tie("Tlv model vs tt1/tt2 NDEF read+write (offset, capacity, flags, skip set, commands, read-back)",
            cases=len(runs), disagreements=dis, exhaustive=False)
+    # how many of the generated cases satisfy the hypotheses of the theorems (decided by the model itself)
+    wf = model.ask_many(["wf %s %s %d" % (r.kind, r.request().split(" ")[2], len(r.data)) for r in runs])
+    nwf = sum(1 for x in wf if x == "1")
+    ck.count("theorem hypotheses (WF, Hdr3) hold", nwf)
+    ck.count("theorem hypotheses do not hold", len(wf) - nwf)
+    for r, x in zip(runs, wf):
+        if x != "1" and r.nd is not None and (len(r.data) < 255 or r.lay["hdr3"]):
+            ck.fail("tie:t12-generated-layout-not-WF", "the generator calls this layout well-formed, the Lean predicate "
+                    "WF does not", r.replay())
+            break
